@@ -5,6 +5,7 @@ import (
 	"go/ast"
 	"go/token"
 	"go/types"
+	"strings"
 
 	"golang.org/x/tools/go/ssa"
 	"golang.org/x/tools/go/types/typeutil"
@@ -55,6 +56,8 @@ func checkC11(c *Ctx, r *Report) {
 	checkAztecRSBeforeUnstuff(c, r)
 	checkAztecUnstuff(c, r)
 	checkAztecModeMessage(c, r)
+	checkAztecCut(c, r)
+	checkAztecDecoderState(c, r)
 	// the six fields' constants (shared with C04)
 	checkGFConstants(c, r)
 	r.Note("not decided: the spiral read-out order of extractBits, the detector (bull's-eye location, orientation), rendering/scale tolerance; totality clauses (nil ECI, negative capacity, result pairing) are decided under C06")
@@ -756,4 +759,156 @@ func checkAztecModeMessage(c *Ctx, r *Report) {
 		}
 		reportFold(r, c, "T-AZTECMODE", key, sw.Pos(), bad)
 	}
+}
+
+// S-AZCUT: how correctBits cuts the layer bits into codewords, and what it hands the Reed-Solomon decoder
+func checkAztecCut(c *Ctx, r *Report) {
+	r.Rule("S-AZCUT", "correctBits, folded for each of the 36 symbol sizes up to its Reed-Solomon call (layer count and data-codeword count from the detector result, readCode replaced by a tag of its start position): the layer bits are cut into floor(bits / size) codewords that are right-aligned - codeword i starts at bit (bits mod size) + i * size, every one of them is read, none twice - the decoder is built over the field of the size, and it is given exactly these codewords with all of the check codewords (numCodewords - numDataCodewords)", 36)
+	fd, p := c.funcDeclOf("aztec/decoder", "Decoder.correctBits")
+	if fd == nil {
+		r.AnchorLost("S-AZCUT", "aztec/decoder.Decoder.correctBits", "method not found")
+		return
+	}
+	type stop struct{}
+	for _, compact := range []bool{true, false} {
+		maxL := 32
+		if compact {
+			maxL = 4
+		}
+		for L := 1; L <= maxL; L++ {
+			key := fmt.Sprintf("aztec/decoder.Decoder.correctBits(%d layers, compact=%v)", L, compact)
+			r.Analysed(key)
+			bitsN := int64((112 + 16*L) * L)
+			if compact {
+				bitsN = int64((88 + 16*L) * L)
+			}
+			size := int64(12)
+			wantField := "GenericGF_AZTEC_DATA_12"
+			switch {
+			case L <= 2:
+				size, wantField = 6, "GenericGF_AZTEC_DATA_6"
+			case L <= 8:
+				size, wantField = 8, "GenericGF_AZTEC_DATA_8"
+			case L <= 22:
+				size, wantField = 10, "GenericGF_AZTEC_DATA_10"
+			}
+			nCw := bitsN / size
+			nData := nCw - nCw/4 - 1
+			if nData < 1 {
+				nData = 1
+			}
+			raw := &Val{K: VList}
+			for i := int64(0); i < bitsN; i++ {
+				raw.L = append(raw.L, vbool(false))
+			}
+			var gotWords []int64
+			gotTwoS := int64(-1)
+			gotField := ""
+			decoded := false
+			h := &rpf{unroll: 100000, maxSteps: 2000000}
+			h.selHook = func(rr *rpf, sel *ast.SelectorExpr) (*Val, bool) {
+				if id, ok := sel.X.(*ast.Ident); ok {
+					if pn, isPkg := rr.p.TypesInfo.Uses[id].(*types.PkgName); isPkg && strings.HasSuffix(pn.Imported().Path(), "/reedsolomon") {
+						if _, isVar := rr.p.TypesInfo.Uses[sel.Sel].(*types.Var); isVar {
+							return vstr(sel.Sel.Name), true
+						}
+					}
+				}
+				if sel.Sel.Name == "ddata" {
+					return &Val{K: VStruct, Ptr: true, Fields: map[string]*Val{}}, true
+				}
+				return nil, false
+			}
+			h.callHook = func(rr *rpf, call *ast.CallExpr, callee types.Object) (*Val, bool) {
+				fn, ok := callee.(*types.Func)
+				if !ok {
+					return nil, false
+				}
+				switch fn.Name() {
+				case "GetNbLayers":
+					return vint(int64(L)), true
+				case "GetNbDatablocks":
+					return vint(nData), true
+				case "IsCompact":
+					return vbool(compact), true
+				case "readCode":
+					a, st, ln := rr.expr(call.Args[0]), rr.expr(call.Args[1]), rr.expr(call.Args[2])
+					if a != raw || st.K != VInt || ln.K != VInt {
+						rpfFail("readCode is not applied to the layer bits with constant positions")
+					}
+					if ln.I != size {
+						rpfFail("readCode reads %d bits, the codeword size for %d layers is %d", ln.I, L, size)
+					}
+					return vint(st.I + 1), true // tag: start position + 1
+				case "NewReedSolomonDecoder":
+					f := rr.expr(call.Args[0])
+					if f.K == VStr {
+						gotField = f.S
+					}
+					return &Val{K: VStruct, Ptr: true, Fields: map[string]*Val{}}, true
+				case "Decode":
+					if isMethodNamed(callee, "common/reedsolomon", "ReedSolomonDecoder", "Decode") {
+						w, n := rr.expr(call.Args[0]), rr.expr(call.Args[1])
+						ws, ok := listInts(w)
+						if !ok || n.K != VInt {
+							rpfFail("the Reed-Solomon decoder is not handed a list of the cut codewords")
+						}
+						gotWords, gotTwoS, decoded = ws, n.I, true
+						panic(stop{})
+					}
+				}
+				return errCtorHook(rr, call, callee)
+			}
+			h.env = map[types.Object]*Val{recvObj(p, fd): {K: VStruct, Ptr: true, Fields: map[string]*Val{"ddata": {K: VStruct, Ptr: true, Fields: map[string]*Val{}}}}}
+			var err error
+			func() {
+				defer func() {
+					if x := recover(); x != nil {
+						if _, ok := x.(stop); ok {
+							return
+						}
+						panic(x)
+					}
+				}()
+				_, err = c.rpfCall(fd, p, []*Val{raw}, h)
+			}()
+			pos := c.pos(fd.Pos())
+			if err != nil {
+				r.Undecided("S-AZCUT", key, pos, err.Error())
+				continue
+			}
+			bad := ""
+			switch {
+			case !decoded:
+				bad = "the Reed-Solomon decoder is never called"
+			case int64(len(gotWords)) != nCw:
+				bad = fmt.Sprintf("%d codewords are handed to the decoder, %d layer bits hold %d codewords of %d bits", len(gotWords), bitsN, nCw, size)
+			case gotTwoS != nCw-nData:
+				bad = fmt.Sprintf("the decoder is told to use %d check codewords, the symbol has %d - %d = %d", gotTwoS, nCw, nData, nCw-nData)
+			case gotField != wantField:
+				bad = fmt.Sprintf("the decoder is built over %s, %d-bit codewords live in %s", gotField, size, wantField)
+			}
+			for i := int64(0); i < int64(len(gotWords)) && bad == ""; i++ {
+				want := bitsN%size + i*size
+				if gotWords[i] == 0 {
+					bad = fmt.Sprintf("codeword %d of %d is never read from the layer bits (it stays 0; Reed-Solomon would have to repair it in every symbol of this size)", i, nCw)
+				} else if gotWords[i]-1 != want {
+					bad = fmt.Sprintf("codeword %d is read from bit %d, right-aligned codewords of %d bits in %d layer bits put it at bit %d", i, gotWords[i]-1, size, bitsN, want)
+				}
+			}
+			r.Check(bad == "", "S-AZCUT", key, pos, bad)
+		}
+	}
+}
+
+// W-DECSTATE: the Aztec decoder object carries nothing from one Decode to the next
+func checkAztecDecoderState(c *Ctx, r *Report) {
+	r.Rule("W-DECSTATE", "aztec/decoder.Decoder keeps no state between calls: the only store into storage reachable from a Decoder outside its constructor is Decode recording its own argument (the detector result of this call) in ddata - scratch buffers kept on the object would let an earlier, larger symbol shape the reading of the next one", 1)
+	checkNoInstanceState(c, r, "W-DECSTATE", "aztec/decoder", []string{"Decoder"}, func(f *ssa.Function, tn, field string, val ssa.Value) bool {
+		if field != "ddata" || f.Name() != "Decode" {
+			return false
+		}
+		p, ok := val.(*ssa.Parameter)
+		return ok && p.Parent() == f
+	})
 }
